@@ -79,6 +79,36 @@ func c03Parse(src string) (string, *engine.Fail) {
 	return "ok", nil
 }
 
+// c03ParseCached: with the template cache enabled, a second Parse / Render of the same text gives
+// the same verdict as the first (a text that failed to parse is not served as a template later).
+func c03ParseCached(src string) (string, *engine.Fail) {
+	plush.VerifCacheReset()
+	plush.CacheEnabled = true
+	defer func() { plush.CacheEnabled = false; plush.VerifCacheReset() }()
+	c1, f := c03Parse(src)
+	if f != nil {
+		return "", f
+	}
+	for i := 2; i <= 3; i++ {
+		c2, f := c03Parse(src)
+		if f != nil {
+			return "", f
+		}
+		if c2 != c1 {
+			return "", engine.Failf("mismatch", "cache enabled: Parse call %d of the same text returned %q, the first returned %q", i, c2, c1)
+		}
+	}
+	_, e1 := plush.Render(src, plush.NewContext())
+	_, e2 := plush.Render(src, plush.NewContext())
+	if c1 == "error" && (e1 == nil || e2 == nil) {
+		return "", engine.Failf("mismatch", "cache enabled: the text does not parse but Render succeeded (errors: %v / %v)", e1, e2)
+	}
+	if (e1 == nil) != (e2 == nil) {
+		return "", engine.Failf("mismatch", "cache enabled: Render of the same text failed once and succeeded once (%v / %v)", e1, e2)
+	}
+	return "cached-" + c1, nil
+}
+
 // c03ParserDirect exercises parser.Parse (what Template.Parse calls).
 func c03ParserDirect(src string) (string, *engine.Fail) {
 	prog, err := parser.Parse(src)
@@ -123,7 +153,7 @@ func init() {
 			return s
 		},
 		Run:  c03Run,
-		Rule: "token sequences over a 60-spelling vocabulary (every token.Type, malformed numbers, unterminated strings, illegal bytes, tag delimiters) of length <=k in 12 framings (closed/unclosed/reopened tags, inside if/for/fn/helper blocks); 18 nesting families open and closed for every depth 1..256; every truncation and single-byte edit (delete, insert, replace by 19 bytes) of a 35-template corpus, pairs of edits in the thorough tier; grammar-aware postfix chains (11 heads x every sequence of <=4/5 postfix operators from 17: index/member/call/chained call/string-or-array after dot/assignment/unbalanced brackets) in 5 framings. Oracle: Parse returns (template with program, nil) or (_, non-empty error); no panic, step budget not exhausted, AST printers do not panic on accepted programs. Non-trivial: at least one token/edit.",
+		Rule: "token sequences over a 60-spelling vocabulary (every token.Type, malformed numbers, unterminated strings, illegal bytes, tag delimiters) of length <=k in 12 framings (closed/unclosed/reopened tags, inside if/for/fn/helper blocks); 18 nesting families open and closed for every depth 1..256; every truncation and single-byte edit (delete, insert, replace by 19 bytes) of a 35-template corpus, pairs of edits in the thorough tier; grammar-aware postfix chains (11 heads x every sequence of <=4/5 postfix operators from 17: index/member/call/chained call/string-or-array after dot/assignment/unbalanced brackets) in 5 framings. Oracle: Parse returns (template with program, nil) or (_, non-empty error); no panic, step budget not exhausted, AST printers do not panic on accepted programs. Non-trivial: at least one token/edit. With the template cache enabled (sequences of <=2 tokens, all corpus truncations and single edits): Parse three times and Render twice of the same text give the same verdict every time - a text that does not parse is never served as a template.",
 		Bound: func(th bool) string {
 			if th {
 				return "k=4 token sequences x 12 framings; nesting 1..256; edit distance <=2 on corpus templates of <=40 bytes, <=1 on the rest"
@@ -218,10 +248,12 @@ func c03Run(t *engine.T, shard string) {
 			for n := 0; n < len(base); n++ {
 				src := base[:n]
 				t.Case(fmt.Sprintf("corpus %d truncated at %d %q", i, n, src), true, func() (string, *engine.Fail) { return c03Parse(src) })
+				t.Case(fmt.Sprintf("corpus %d truncated at %d, cache enabled %q", i, n, src), true, func() (string, *engine.Fail) { return c03ParseCached(src) })
 			}
 			for _, e := range c03Edit1(base) {
 				src := e
 				t.Case(fmt.Sprintf("corpus %d edit1 %q", i, src), true, func() (string, *engine.Fail) { return c03Parse(src) })
+				t.Case(fmt.Sprintf("corpus %d edit1, cache enabled %q", i, src), true, func() (string, *engine.Fail) { return c03ParseCached(src) })
 			}
 			return
 		}
@@ -272,6 +304,11 @@ func c03Seq(t *engine.T, seq []string) {
 		t.Case("seq "+fr.name+" "+fmt.Sprintf("%q", src), len(seq) > 0, func() (string, *engine.Fail) {
 			return c03Parse(src)
 		})
+		if len(seq) <= 2 {
+			t.Case("seq "+fr.name+", cache enabled "+fmt.Sprintf("%q", src), len(seq) > 0, func() (string, *engine.Fail) {
+				return c03ParseCached(src)
+			})
+		}
 	}
 	if len(seq) > 0 {
 		// also as bare text outside any tag (the HTML scanner sees it)
